@@ -100,15 +100,16 @@ type Ctx struct {
 	Work    string // scratch directory of this worker (removed by the driver)
 	Root    string // /verif
 
-	mu       sync.Mutex
-	rep      Report
-	hashes   map[uint64]struct{}
-	journal  *os.File
-	inflight []byte
-	since    time.Time
-	findings []Finding
-	maxViol  int
-	replay   bool
+	mu        sync.Mutex
+	rep       Report
+	hashes    map[uint64]struct{}
+	journal   *os.File
+	inflight  []byte
+	hangLimit int // per-case override of Prop.HangSeconds (0 = none)
+	since     time.Time
+	findings  []Finding
+	maxViol   int
+	replay    bool
 }
 
 func (c *Ctx) Quick() bool { return c.Tier != "thorough" }
@@ -142,6 +143,15 @@ func (c *Ctx) SubRand(tag string, i int) *rand.Rand {
 }
 
 // Begin journals the case about to run so that a crash can be attributed.
+// HangLimit sets the wall-clock bound for the cases begun from now on (0 =
+// the property's HangSeconds). For properties whose cases differ by orders of
+// magnitude in legitimate duration.
+func (c *Ctx) HangLimit(seconds int) {
+	c.mu.Lock()
+	c.hangLimit = seconds
+	c.mu.Unlock()
+}
+
 func (c *Ctx) Begin(desc any) {
 	if c.journal == nil {
 		return
@@ -368,12 +378,16 @@ func RunWorker(id, tier string, seed int64, shard, nshards int, out, root string
 				c.writeReport(out, false)
 				if p.HangSeconds > 0 {
 					c.mu.Lock()
-					stuck := c.inflight != nil && time.Since(c.since) > time.Duration(p.HangSeconds)*time.Second
+					limit := p.HangSeconds
+					if c.hangLimit > 0 {
+						limit = c.hangLimit
+					}
+					stuck := c.inflight != nil && time.Since(c.since) > time.Duration(limit)*time.Second
 					var cs json.RawMessage
 					if stuck {
 						cs = append(json.RawMessage(nil), c.inflight...)
 						c.rep.Violations = append(c.rep.Violations, Violation{
-							What: fmt.Sprintf("the case did not finish within %d s of wall clock although such cases normally take milliseconds (non-termination)", p.HangSeconds), Case: cs})
+							What: fmt.Sprintf("the case did not finish within %d s of wall clock although such cases normally take milliseconds (non-termination)", limit), Case: cs})
 						c.inflight = nil
 					}
 					c.mu.Unlock()
